@@ -207,6 +207,23 @@ func RunL1(sc *Scenario, o L1Opts) *Result {
 		res.EndClass = EndOK
 		return res
 	}
+	if o.WantFormat && !res.FormatRepeatDiffers {
+		// ... and asking once more after the program has run (or crashed, or was stopped) as well:
+		// running must not change what the parsed program formats to
+		first := res.Formatted
+		defer func() {
+			defer func() {
+				if p := recover(); p != nil {
+					res.Formatted = first + "\nFORMAT-REPEAT-DIFFERS:\nFORMAT-CRASH: " + fmt.Sprint(p)
+					res.FormatRepeatDiffers = true
+				}
+			}()
+			if again := prog.Format(); again != first {
+				res.Formatted = first + "\nFORMAT-REPEAT-DIFFERS:\n" + again
+				res.FormatRepeatDiffers = true
+			}
+		}()
+	}
 	p := plat.New(sc.Inputs)
 	p.InDelay = sc.Schedule.InDelay
 	p.Budget = o.Budget
